@@ -54,16 +54,34 @@ End Driver.
 (* ---- helpers for monitors ---- *)
 Definition sid_of (c : cfg) (s : step) : string := session_id_from_cookie (cookie_prefix c) (r_cookie (s_req s)).
 
-(* ghost session table rebuilt from the PERFORMED effects: what is bound to each id *)
-Inductive gsess := GSTokens (t : tokens) | GSUnknown.   (* GSUnknown: a write/remove was reported failed *)
-Definition ghost := list (string * gsess).
+(* ghost session table rebuilt from the PERFORMED effects: for each id, the token states it may be in
+   (None = no tokens).  A write or removal that was reported failed may or may not have taken place, so
+   it ADDS a possibility; a successful one leaves exactly one; a read narrows to what was read. *)
+Definition ghost := list (string * list (option tokens)).
+Definition poss (g : ghost) (sid : string) : list (option tokens) :=
+  match lookup sid g with Some l => l | None => [None] end.
+Definition otok_eqb (a b : option tokens) : bool :=
+  match a, b with Some x, Some y => tokens_eqb x y | None, None => true | _, _ => false end.
+Definition may_be (g : ghost) (sid : string) (v : option tokens) : bool := existsb (otok_eqb v) (poss g sid).
 
 Definition ghost_eff (g : ghost) (ea : eff * ans) : ghost :=
   match ea with
-  | (ESetTok sid t, AUnit true) => set_key sid (GSTokens t) g
-  | (ESetTok sid _, AUnit false) => set_key sid GSUnknown g
-  | (ERemove sid, AUnit true) => remove_key sid g
-  | (ERemove sid, AUnit false) => match lookup sid g with Some _ => set_key sid GSUnknown g | None => g end
+  | (ESetTok sid t, AUnit true) => set_key sid [Some t] g
+  | (ESetTok sid t, AUnit false) => set_key sid (Some t :: poss g sid) g
+  | (ERemove sid, AUnit true) => set_key sid [None] g
+  | (ERemove sid, AUnit false) => set_key sid (None :: poss g sid) g
+  | (EGetTok sid, ATok (Some v)) => if may_be g sid v then set_key sid [v] g else g
   | _ => g
   end.
 Definition ghost_step (g : ghost) (s : step) : ghost := fold_left ghost_eff (s_trace s) g.
+
+(* every read of tokens returned a state the performed effects allow (threaded through the trace) *)
+Fixpoint reads_bound (g : ghost) (tr : list (eff * ans)) : bool :=
+  match tr with
+  | [] => true
+  | ea :: tr' =>
+      match ea with
+      | (EGetTok sid, ATok (Some (Some t))) => may_be g sid (Some t)
+      | _ => true
+      end && reads_bound (ghost_eff g ea) tr'
+  end.
